@@ -5,6 +5,7 @@ CONSTANTS
   MaxExcluded = 1
   AllowMalformed = TRUE
   AsFound_SignedRelativeTest = FALSE
+  AsFound_NearZeroBandIgnoresDrift = FALSE
 INVARIANT TypeOK
 INVARIANT C15_AcceptedIsSteady
 INVARIANT C15_OtherwiseRaises
